@@ -10,7 +10,7 @@ CROSS = {"C02-r2-3": ["C04"], "C03-r2-2": ["C11"], "C08-r2-2": ["C09"], "C11-3":
          "C02-r2-2": ["C03"], "C03-3": ["C08"],
          "C02-r3-3": ["C09"], "C03-r3-2": ["C09"], "C03-r3-3": ["C04", "C11"], "C08-r3-3": ["C03"], "C18-r3-2": ["C03"],
          "C11-r3-2": ["C09"], "C09-r3-2": ["C02"],
-         "C17-r5-2": ["C03"], "C17-r5-3": ["C03", "C02"], "C18-r5-2": ["C17"], "C03-r5-2": ["C11"],
+         "C20-r5-2": ["C03"], "C17-r5-2": ["C03"], "C17-r5-3": ["C03", "C02"], "C18-r5-2": ["C17"], "C03-r5-2": ["C11"],
          "C03-r4-1": ["C11"], "C08-r4-2": ["C09"], "C18-r4-2": ["C03"], "C17-r4-2": ["C09"], "C09-r4-2": ["C11"]}
 out = {}
 if only:
